@@ -66,6 +66,11 @@ func (c *Ctx) c08Text(text string, family string) {
 		ls := c.LibSearch(text, goDoc)
 		c.c08Contract("Search", text, goDoc, ls)
 		if ls.Panic != nil || lc.Panic != nil {
+			bad := ls
+			if lc.Panic != nil {
+				bad = lc
+			}
+			c.Report(Violation{Rule: "C08/panic", Expr: text, Data: gen.Describe(goDoc), Got: ShowOut(bad), Want: "a result or an error", Features: feats})
 			continue
 		}
 		// Compile and Search agree on static faults
